@@ -22,6 +22,7 @@ Last(p) == p[Len(p)]
 IsPrefixP(a, b) == Len(a) <= Len(b) /\ SubSeq(b, 1, Len(a)) = a
 Under(p, d) == IsPrefixP(d, p)               \* p = d or p below d (segment-wise)
 StrictlyUnder(p, d) == Under(p, d) /\ p # d
+ProperPrefixP(a, b) == Len(a) < Len(b) /\ SubSeq(b, 1, Len(a)) = a
 
 IsAbsT(toks) == toks # <<>> /\ toks[1] = ""
 NoOps(t) == \A i \in 1..Len(t) : t[i] \in {"", "."}
